@@ -75,6 +75,12 @@ func verifyFunc(prog *ssa.Program, specs *SpecDB, fn *ssa.Function, opts verifyO
 		}
 		args = append(args, Val{T: c})
 	}
+	if recv := fn.Signature.Recv(); recv != nil && opts.nopanic && len(args) > 0 {
+		if _, isPtr := recv.Type().Underlying().(*types.Pointer); isPtr {
+			// no-panic sweep: methods are entered with a non-nil receiver (obligation nilrecv at every static call site)
+			e.assume(not(eq(args[0].T, "0")))
+		}
+	}
 	for _, fv := range fn.FreeVars {
 		c := e.declConst("fv$"+sanitize(fv.Name()), e.sortOf(fv.Type()))
 		f.vals[fv] = Val{T: c}
@@ -150,14 +156,30 @@ func verifyFunc(prog *ssa.Program, specs *SpecDB, fn *ssa.Function, opts verifyO
 		if sp.Assumed {
 			rep.Status = "assumed"
 		}
+		evaluated := map[*Clause]bool{}
+		defer func() {
+			for _, en := range sp.Ensures {
+				if (hasTag(en.Tags, opts.property) || opts.property == "") && !evaluated[en] && len(f.rets) > 0 && rep.Status != "tool-error" {
+					rep.Status = "tool-error"
+					rep.Err = "ensures clause mentions an identifier that is unknown at every return: " + en.Src
+					rep.Obls = nil
+				}
+			}
+		}()
 		for _, r := range f.rets {
 			f.curBlock = r.block
 			ctx := f.ctxFor(fn, args, r.vals, r.st, entry, r.guard)
+			rblock, rst := r.block, r.st
+			ctx.lookup = func(name string) (SV, bool) { return f.resolveLocal(name, rblock, rst, nil) }
 			for _, en := range sp.Ensures {
 				if !hasTag(en.Tags, opts.property) && opts.property != "" {
 					continue
 				}
-				t := ctx.eval(en.Expr).T
+				t, ok := evalClauseAt(ctx, en)
+				if !ok {
+					continue // mentions a local that is not yet declared on this return path
+				}
+				evaluated[en] = true
 				f.oblige("post", fmt.Sprintf("%s:post#%d@ret%d", fname, en.Ord, r.idx+1), r.guard, t, en.Src, en.Tags, r.pos)
 			}
 			// frame
@@ -263,4 +285,18 @@ func (o *Obligation) query(getModel bool) string {
 		b.WriteString("(get-model)\n")
 	}
 	return b.String()
+}
+
+// evalClauseAt evaluates a clause; ok=false when it mentions a local that does not exist at this point.
+func evalClauseAt(ctx *SpecCtx, c *Clause) (t string, ok bool) {
+	defer func() {
+		if r := recover(); r != nil {
+			if te, isTE := r.(toolError); isTE && strings.Contains(te.msg, "unknown identifier") {
+				ok = false
+				return
+			}
+			panic(r)
+		}
+	}()
+	return ctx.eval(c.Expr).T, true
 }
